@@ -1,7 +1,8 @@
 /-
 C02 driver: one dumped function per line (format: harness/internal/c02ir/dump.go).
 
-  chk <nblocks> <ninstr> <nvals> <ntypes> <recover|-|x> <nres> <res tid>... T … V … B … I …
+  chk <nblocks> <ninstr> <nvals> <ntypes> <recover|-|x> <nres> <res tid>...
+      <nparams> <vid>... <nsig> <tid>... <nfree> <vid>... <nlocals> <iid|->... <naive 0|1> T … V … B … I …
 
   kinds        → every instruction kind of the model, `Name:typed|untyped`
 
@@ -12,7 +13,9 @@ added to the model and the typing table before anything is validated).
 Every answer ends in ` # h=<hash of the input line>` (used to count distinct cases).
 stats: `nb=` blocks, `ni=` instructions, `phi=` φ-nodes, `xuse=` operand slots whose
 definition is in another block, `typed=` instructions whose kind has a typing row, `unreach=` blocks not reachable from the
-entry in `f.graph` (their uses are vacuously dominated).
+entry in `f.graph` (their uses are vacuously dominated), `vetbad=` candidate sets of the unverified
+search that failed their re-check (the exact reference decided instead), `reordered=` instructions
+whose `Operands()` and struct fields agree only as multisets.
 Details are produced by unverified reporting code; they name the first offending
 instruction / pair so that the finding can be confirmed by hand on the dump.
 -/
@@ -125,8 +128,9 @@ def pInstr : P Instr := do
   let c ← pOpt
   let xs ← pList pOpt
   let ops ← pList pOpt
+  let fops ← pList pOpt
   let refs ← pRefs
-  pure { kind, ty, blk, irid, a, b, c, xs, ops, refs }
+  pure { kind, ty, blk, irid, a, b, c, xs, ops, fops, refs }
 
 /-- a block header: Index, Preds, Succs, number of instructions -/
 def pBlockHead : P (Option Nat × List (Option Nat) × List (Option Nat) × Nat) := do
@@ -157,6 +161,12 @@ def pCase : P FnDump := do
     | some r => pure (some r)
     | none => failure : P (Option Nat))
   let results ← pList pNat
+  let params ← pList pNat
+  let sigParams ← pList pNat
+  let freeVars ← pList pNat
+  let locals ← pList pOpt
+  let nai ← pNat
+  if nai > 1 then failure
   pExpect "T"
   let types ← pMany nt pType
   pExpect "V"
@@ -166,7 +176,9 @@ def pCase : P FnDump := do
   pExpect "I"
   let instrs ← pMany m pInstr
   match splitInstrs heads instrs with
-  | some blocks => pure { types := types.toArray, vals := vals.toArray, blocks, recover, results }
+  | some blocks =>
+    pure { types := types.toArray, vals := vals.toArray, blocks, recover, results, params, sigParams,
+           freeVars, locals, naive := nai == 1 }
   | none => failure
 
 def parseCase (ts : List String) : Option FnDump :=
@@ -182,6 +194,7 @@ def showOpt (o : Option Nat) : String :=
   | none => "-"
 
 def kindName (k : Kind) : String := (reprStr k).replace "Verif.C02.Kind." ""
+def vkName (k : VKind) : String := (reprStr k).replace "Verif.C02.VKind." ""
 
 /-- first element of `a` that is not in `b` (both sorted canonical sets) -/
 def firstMissing (a b : List (Nat × Nat)) : Option (Nat × Nat) := a.find? fun p => !b.contains p
@@ -198,7 +211,7 @@ def details (f : FnDump) (clause : String) : String :=
           if operandOKB (domX f.graph sets) f fl x.1 x.2.1 x.2.2 k v then none else
           let d := match fl[v]? with
             | some (bd, id, di) => s!"def=i{v}:{kindName di.kind}@b{bd}.{id}"
-            | none => s!"def=v{v}:{match f.vals[v - fl.size]? with | some w => reprStr w.kind | none => "?"}"
+            | none => s!"def=v{v}:{match f.vals[v - fl.size]? with | some w => vkName w.kind | none => "?"}"
           some s!"use=i{u}:{kindName x.2.2.kind}@b{x.1}.{x.2.1} operand#{k} {d}") with
     | some s => s
     | none => ""
@@ -232,19 +245,36 @@ def details (f : FnDump) (clause : String) : String :=
     match f.blocks.zipIdx.find? (fun (b, i) => !decide (BlockShape f.nblocks b i)) with
     | some (b, i) => s!"block {i}: Index={showOpt b.index} ninstr={b.instrs.length} preds={b.preds.map showOpt} succs={b.succs.map showOpt} instr.Block()={(b.instrs.map fun x => showOpt x.blk).take 8}"
     | none => s!"recover={showOpt f.recover} nblocks={f.nblocks} ids-distinct={strictAsc (msort natLe (f.flatL.map (·.2.2.irid)))}"
+  else if clause = "operands-complete" then
+    match f.flatL.zipIdx.find? (fun (x, _) => !(x.2.2.ops == x.2.2.fops || x.2.2.ops.isPerm x.2.2.fops)) with
+    | some (x, u) =>
+      let showV := fun (o : Option Nat) =>
+        match o with
+        | none => "-"
+        | some v => if v < fl.size then s!"i{v}" else
+          s!"v{v}:{match f.vals[v - fl.size]? with | some w => vkName w.kind | none => "?"}"
+      let miss := x.2.2.fops.filter fun o => x.2.2.fops.count o != x.2.2.ops.count o
+      s!"i{u}:{kindName x.2.2.kind}@b{x.1}.{x.2.1} Operands()={x.2.2.ops.map showV} struct-fields={x.2.2.fops.map showV} differing={miss.map showV}"
+    | none => ""
+  else if clause = "function" then
+    let pk := fun (k : VKind) (l : List Nat) => decide (ListedOK f fl k l)
+    s!"params-listed={pk .param f.params} params={f.params.map (valTy f fl)} signature={f.sigParams} freevars-listed={pk .freevar f.freeVars} locals={f.locals.map showOpt} naive={f.naive} locals-ok={decide (∀ l ∈ f.locals, LocalOK f.naive fl l)} locals-distinct={decide (f.locals.filterMap id).Nodup}"
   else if clause = "refs-tracked" then
     match f.flatL.zipIdx.find? (fun (x, _) => x.2.2.refs.isSome != x.2.2.ty.isSome) with
     | some (x, u) => s!"i{u}:{kindName x.2.2.kind} value={x.2.2.ty.isSome} referrers-defined={x.2.2.refs.isSome}"
     | none =>
       match f.vals.toList.zipIdx.find? (fun (w, _) => w.kind.legit && (w.refs.isSome != w.kind.tracked)) with
-      | some (w, j) => s!"v{fl.size + j}:{reprStr w.kind} referrers-defined={w.refs.isSome}"
+      | some (w, j) => s!"v{fl.size + j}:{vkName w.kind} referrers-defined={w.refs.isSome}"
       | none => ""
   else ""
 
 def check (f : FnDump) : String :=
-  let cl := clauses f
-  -- `(clauses f).all (·.2) = wfCheck f` is theorem `wfCheck_eq_clauses`; evaluating the
-  -- named list once avoids running every clause twice
+  let G := f.graph
+  let sets := mkSets G
+  let cl := clausesS f sets
+  -- `(clauses f).all (·.2) = wfCheck f` is theorem `wfCheck_eq_clauses` (and `clauses f` is
+  -- `clausesS f (mkSets f.graph)` by definition); evaluating the named list once avoids
+  -- running every clause twice
   let v := cl.all (·.2)
   let bad := (cl.filter (fun p => !p.2)).map (·.1)
   let fl := f.flatL
@@ -256,10 +286,11 @@ def check (f : FnDump) : String :=
       match o with
       | some v => (match fa[v]? with | some (bd, _, _) => bd != x.1 | none => false)
       | none => false).length).foldl (· + ·) 0
-  let G := f.graph
   let reach := avoidGo G G.size G.size (G.size + edgeCount G + 2) [0] (Array.replicate G.size false)
   let unreach := ((List.range G.size).filter fun b => !reach.getD b false).length
-  let stats := s!"nb={f.nblocks} ni={fl.length} phi={phis} xuse={xuse} typed={typed} unreach={unreach}"
+  let vetbad := ((vetSets G sets).toList.filter (!·)).length
+  let fdiff := (fl.filter fun x => x.2.2.ops != x.2.2.fops).length
+  let stats := s!"nb={f.nblocks} ni={fl.length} phi={phis} xuse={xuse} typed={typed} unreach={unreach} vetbad={vetbad} reordered={fdiff}"
   if v && bad.isEmpty then s!"ok {stats}"
   else if v || bad.isEmpty then s!"fail:clauses-disagree {stats}"
   else
